@@ -575,5 +575,104 @@ theorem lookup_apply (old : List Str) (env : List KeyValue) (hwf : WF old) (hne 
         have hany : env.any (removes k) = true := List.any_eq_true.mpr ⟨e, hq.1, hq.2⟩
         simp [hany]
 
+/-! ### order of the untouched entries -/
+
+theorem nameOf_render (n v : Str) (h : '=' ∉ n) : nameOf (n ++ '=' :: v) = n := by
+  simp [nameOf, splitEq_render n v h]
+
+theorem filter_render {acc : AList Str Str} (h : NoEq acc) (q : Str → Bool) :
+    (render acc).filter (fun e => q (nameOf e)) = render (acc.filter (fun x => q x.1)) := by
+  induction acc with
+  | nil => rfl
+  | cons x r ih =>
+    obtain ⟨n, v⟩ := x
+    have hn : '=' ∉ n := h (n, v) (by simp)
+    have hr : NoEq r := fun y hy => h y (List.mem_cons_of_mem _ hy)
+    have ih := ih hr
+    simp only [render, List.map_cons, List.filter_cons, nameOf_render n v hn] at ih ⊢
+    cases q n <;> simp [ih]
+
+theorem lookup_mod_none {env : List KeyValue} {k : Str} (h : ∀ e ∈ env, stripMarker e.key ≠ k) :
+    AList.lookup (mod env) k = none := by
+  rw [lookup_mod]
+  have h1 : lastMatch (setsKey k) env = none := by
+    rw [lastMatch_none_iff]; intro e he
+    cases hm : isMarked e.key
+    · have := h e he; rw [strip_of_not_marked hm] at this
+      simp [setsKey, hm, this]
+    · simp [setsKey, hm]
+  have h2 : lastMatch (removes k) env = none := by
+    rw [lastMatch_none_iff]; intro e he
+    have := h e he
+    simp [removes, this]
+  rw [h1, h2]
+
+theorem render_filter_keep (old : List Str) (md : AList Str KeyValue) (hwf : WF old) (hmod : ModOK md)
+    (q : Str → Bool) (hq : ∀ e ∈ old, q (nameOf e) = true → AList.lookup md (nameOf e) = none) :
+    render ((old.filterMap (keep md)).filter (fun x => q x.1)) = old.filter (fun e => q (nameOf e)) := by
+  induction old with
+  | nil => rfl
+  | cons e r ih =>
+    obtain ⟨n, v, hs, _⟩ := hwf.split e (by simp)
+    have hname : nameOf e = n := nameOf_of_split hs
+    have ih := ih hwf.tail (fun x hx => hq x (List.mem_cons_of_mem _ hx))
+    simp only [List.filterMap_cons, List.filter_cons, hname]
+    cases hqn : q n with
+    | true =>
+      have hl : AList.lookup md n = none := by
+        have := hq e (by simp); rw [hname] at this; exact this hqn
+      have hk : keep md e = some (n, v) := by simp [keep, hs, hl]
+      simp only [hk, List.filter_cons, hqn, if_true, render, List.map_cons]
+      simp only [render] at ih
+      rw [ih, (splitEq_some hs).1]
+    | false =>
+      simp only [Bool.false_eq_true, if_false]
+      cases hk : keep md e with
+      | none => exact ih
+      | some p =>
+        obtain ⟨n', v'⟩ := p
+        have : n' = n := by
+          unfold keep at hk
+          simp only [hs] at hk
+          cases hl : AList.lookup md n with
+          | none => rw [hl] at hk; simp at hk; exact hk.1.symm
+          | some m =>
+            rw [hl] at hk
+            cases hmk : isMarked m.key with
+            | true => simp [hmk] at hk
+            | false =>
+              simp [hmk] at hk
+              have := hmod n m hl; rw [strip_of_not_marked hmk] at this
+              rw [← hk.1, this]
+        subst this
+        simp only [List.filter_cons, hqn, Bool.false_eq_true, if_false]
+        exact ih
+
+/-- Entries whose names the adjustment does not mention come out unchanged and in their
+    original relative order (`q` = any predicate on names that rejects every named key). -/
+theorem filter_apply (old : List Str) (env : List KeyValue) (hwf : WF old)
+    (hkeys : ∀ e ∈ env, '=' ∉ stripMarker e.key) (q : Str → Bool)
+    (hq : ∀ e ∈ env, q (stripMarker e.key) = false) :
+    (apply old env).filter (fun e => q (nameOf e)) = old.filter (fun e => q (nameOf e)) := by
+  by_cases hne : env = []
+  · subst hne; simp [apply, applyWith]
+  rw [apply_eq old env hne]
+  have hmod := modOK env
+  have hsnd := phase1_snd old (mod env) [] hwf (by simp) hmod
+  simp only [List.nil_append] at hsnd
+  have hnoeq : NoEq (finalAcc old env) := by
+    unfold finalAcc; simp only
+    rw [hsnd]
+    exact noEq_phase2 _ _ _ (noEq_filterMap_keep old _ hmod) hkeys
+  rw [filter_render hnoeq]
+  unfold finalAcc; simp only
+  rw [filter_phase2 _ _ _ q hq, hsnd]
+  apply render_filter_keep old _ hwf hmod
+  intro e _ hqe
+  apply lookup_mod_none
+  intro x hx hxe
+  have := hq x hx
+  rw [hxe, hqe] at this; cases this
+
 end Env
 end Nri.Generate
